@@ -100,8 +100,21 @@ def key(f): return "L%d|e%d|c%d|g%d" % f
 
 # ------------------------------------------------------------------ running
 def write_geometry(cfg, level, wd, ident, sigmas=None):
+    """cfg["desc"] = [domain order, swap] re-describes the SAME head: domain order "in-out" (default), "out-in" (Air first, brain
+    last) or "shuffled"; swap = the boundaries of every domain listed in the opposite order.  Meshes and interfaces keep their
+    order, so the unknowns are numbered identically and the result must be the same to rounding."""
     m = models.nested(cfg["radii"], sigmas or cfg["sigmas"], level, centre=tuple(cfg["centre"]), names=["s%d_%d" % (ident, k) for k in range(len(cfg["radii"]))])
+    order, swap = cfg.get("desc") or ["in-out", False]
+    doms = list(m["domains"])
+    if order == "out-in": doms.reverse()
+    elif order == "shuffled":
+        import random
+        random.Random(len(doms) * 7919 + int(cfg["radii"][0] * 1e6) % 1000).shuffle(doms)
+    if swap: doms = [(n, list(reversed(b))) for n, b in doms]
+    m["domains"] = doms
     models.write_model(m, wd, fmt="tri", stem="m%d" % ident)
+
+DESCS = [["in-out", False], ["out-in", False], ["shuffled", True], ["out-in", True], ["in-out", True], ["shuffled", False]]
 
 def geometry_files(cfg, level, wd):
     """the exact input files of a configuration, as text (stored in replays)"""
@@ -119,7 +132,7 @@ def impl_case(cfg, level, ident, with_eeg=True):
     for d in cfg["dipoles"]: fl += shift(d["pos"], c) + d["mom"]
     for e in el: fl += shift(e, c)
     for s in cfg["meg"]: fl += shift(s["pos"], c) + s["ori"]
-    return core.fcase("c01", [ident, len(cfg["dipoles"]), len(el), len(cfg["meg"])], fl)
+    return core.fcase("c01", [ident, len(cfg["dipoles"]), len(el), len(cfg["meg"]), int(cfg.get("api", 0))], fl)
 
 def nterms_for(cfg):
     e = max([d["ecc"] for d in cfg["dipoles"]] + [0.1]) * cfg["radii"][0] / cfg["radii"][-1]
@@ -209,7 +222,7 @@ def rel_l2(a, b):
     n = max(l2(a), l2(b))
     return 0.0 if n == 0 else l2([x - y for x, y in zip(a, b)]) / n
 
-MASKBITS = {1: "HeadMatInv", 2: "SourceMat (DipSourceMat)", 4: "Head2EEGMat", 8: "Head2MEGMat", 16: "Source2MEGMat (DipSource2MEGMat)"}
+MASKBITS = {1: "HeadMatInv", 2: "SourceMat (DipSourceMat)", 4: "Head2EEGMat", 8: "Head2MEGMat", 16: "Source2MEGMat (DipSource2MEGMat)", 32: "the HeadMat object itself (receiver of the const method SymMatrix::inverse())"}
 def mask_names(m): return [n for b, n in MASKBITS.items() if m & b]
 
 def closed_form_pieces(ck, runner, cfgs, rng):
@@ -427,8 +440,10 @@ def shrink(run1, cfg, level, budget=24):
 
 # ------------------------------------------------------------------ main
 def describe(cfg, level):
-    return "%d layer(s), %d vertices/surface, radii %s, sigmas %s, centre %s" % (
-        len(cfg["radii"]), NVERT[level], ["%.4g" % r for r in cfg["radii"]], ["%.4g" % s for s in cfg["sigmas"]], ["%.3g" % c for c in cfg["centre"]])
+    return "%d layer(s), %d vertices/surface, radii %s, sigmas %s, centre %s, domains described %s%s, %s" % (
+        len(cfg["radii"]), NVERT[level], ["%.4g" % r for r in cfg["radii"]], ["%.4g" % s for s in cfg["sigmas"]], ["%.3g" % c for c in cfg["centre"]],
+        (cfg.get("desc") or ["in-out", False])[0], " with the boundaries of each domain listed in reverse" if (cfg.get("desc") or ["in-out", False])[1] else "",
+        "gains through HeadMat.inverse() taken twice on the same object (EEG then MEG)" if cfg.get("api") else "head matrix inverted in place once (tool sequence)")
 
 def report(ck, cal, runner, cfg, level, tag, bad0=None, imp0=None, mod0=None, history=None):
     """a configuration exceeded its bound (bad0, measured inside the batch): shrink it and record the violation with a replay.
@@ -581,6 +596,11 @@ def main_(replay=None, calibrate=False):
                 (a, _, sa), (b, _, sb) = runner.run([(c, 1, None, False), (c, 1, rp["sigmas2"], False)])
                 e = rel_l2(a, b) if a is not None and b is not None else float("inf")
                 if not (e <= cal["meg_sigma"]): msgs.append("MEG gain changes by %.3g (level %.3g) between the two conductivity sets" % (e, cal["meg_sigma"]))
+            elif rel == "redescription":
+                y = copy.deepcopy(c); y["desc"] = ["in-out", False]; y["api"] = 0
+                (a, _, sa), (b, _, sb) = runner.run([(c, 1, None, True), (y, 1, None, True)]); mk = runner.last_masks[0]
+                e = rel_l2(a, b) if a is not None and b is not None else float("inf")
+                if not (e <= 1e-9) or mk: msgs.append("gains differ by %.3g from the inside-out / invert() reference; operands modified: %s" % (e, mask_names(mk) or "none"))
             elif rel == "refine":
                 la, lb = rp["refine"][0], rp["refine"][1]; name = rp["metric"]
                 (a, ma, sa), (b, mb, sb) = runner.run([(c, la, None, True), (c, lb, None, True)])
@@ -631,6 +651,9 @@ def main_(replay=None, calibrate=False):
     for k in range(n1):
         forced = [1, 2, 3, 4][k] if k < 4 else None          # every layer count in every run
         cfgs.append(gen_config(rng, forced))
+        # description order and API path vary with the index (no random draw: the calibrated stream is unchanged; on a correct
+        # library neither changes the numbers beyond rounding)
+        cfgs[-1]["desc"] = DESCS[k % len(DESCS)]; cfgs[-1]["api"] = (k // 2) % 2
     # 162-vertex tier: the first n2 configurations plus (quick tier) the four hardest of the rest - strongest conductivity contrast,
     # thin layers - because the 42-vertex bounds are nearly vacuous exactly there and the 162-vertex ones are not
     def hardness(c):
@@ -646,7 +669,7 @@ def main_(replay=None, calibrate=False):
         if m_:
             c_, lv_ = jobs[q_][0], jobs[q_][1]
             ck.violation("Gain constructor modifies its operand: %s" % ", ".join(mask_names(m_)),
-                         "GainEEG/GainMEG changed the matrix handed in as %s (bitwise snapshot before/after the constructor); a second gain computed from the same operator object (conductivity sweep) is then wrong; %s" % (", ".join(mask_names(m_)), describe(c_, lv_)),
+                         "an operand that must come back unchanged was modified: %s (bitwise snapshot before/after the call); a second gain computed from the same object (conductivity sweep, EEG then MEG) is then wrong; %s" % (", ".join(mask_names(m_)), describe(c_, lv_)),
                          dict(kind="sphere-batch", jobs=[list(jobs[q_])], index=0, level=lv_, config=c_, mask=m_)); break
     # the same configuration alone in a fresh process must give the same numbers (1e-9: thread scheduling only)
     niso = min(len(jobs), len(cfgs) + 3) if quick else min(len(jobs), 80)      # all 42-vertex jobs and three 162-vertex ones
@@ -807,6 +830,27 @@ def main_(replay=None, calibrate=False):
                          "the MEG gain changes by %.3g (relative, l2; calibrated level %.3g) between conductivities %s and %s; %s" % (e2, cal["meg_sigma"], ["%.4g" % s for s in c["sigmas"]], ["%.4g" % s for s in s2], describe(c, 1)),
                          dict(kind="relation", relation="sigma-independent", config=c, level=1, sigmas2=s2, gain=a, gain2=d))
 
+    # ---- the same head described in another order, and the API path inverse() x2 against invert(): same numbers (1e-9)
+    redesc = 0.0
+    if not calibrate:
+        base = cfgs[ncorpus:ncorpus + (6 if quick else 24)]; rj = []
+        for c in base:
+            for dsc, api in ((["out-in", False], 1), (["shuffled", True], 0)):
+                x = copy.deepcopy(c); x["desc"] = dsc; x["api"] = api; rj.append((x, 1, None, True))
+            x = copy.deepcopy(c); x["desc"] = ["in-out", False]; x["api"] = 0; rj.append((x, 1, None, True))
+        rr = runner.run(rj); rmasks = list(runner.last_masks)
+        for q_ in range(0, len(rj), 3):
+            ref = rr[q_ + 2][0]
+            for t_ in (0, 1):
+                x = rj[q_ + t_][0]; g = rr[q_ + t_][0]
+                e_ = rel_l2(g, ref) if g is not None and ref is not None else float("inf")
+                if e_ == e_ and e_ != float("inf"): redesc = max(redesc, e_)
+                if not (e_ <= 1e-9) or rmasks[q_ + t_]:
+                    ck.violation("same head, other description / API path: gains differ (%s, %s)" % (x["desc"][0], "inverse() twice" if x["api"] else "invert()"),
+                                 "the gains of the same head differ by %.3g (relative l2) from the reference run (domains listed inside-out, head matrix inverted in place once); operands modified: %s; %s"
+                                 % (e_, mask_names(rmasks[q_ + t_]) or "none", describe(x, 1)),
+                                 dict(kind="relation", relation="redescription", config=x, level=1, gain=g, reference_gain=ref, mask=rmasks[q_ + t_]))
+    ck.cov["redescription_and_api_path_max_rel"] = redesc
     ncf, wcf = (0, 0.0) if calibrate else closed_form_pieces(ck, runner, cfgs[:20 if quick else 100], rng)
     nmp, wmp, rmp = (0, 0.0, []) if calibrate else multipoint_sensors(ck, runner, cfgs[1:4] if quick else cfgs[1:13], rng)
 
